@@ -226,4 +226,12 @@ example :
     (handleForm c pk st f2).1 = .ok ∧ threadsOutcomes (today false true) 0 st (formThreads c pk st f2) = [some .ok] := by
   decide
 
+/-- the store prefixes under which the harness recognises the one-time-store calls of the `calls` column are today's
+    (regenerated `prefix_*` facts): a renamed store breaks this instead of silently emptying the column -/
+theorem fact_call_column_prefixes :
+    Kind.all.map (fun k => (String.intercalate "/" (todayPrefix k), k.name)) =
+      [("oauth/code", "code"), ("oauth/requestobject", "reqobj"), ("oauth/nonce", "vpnonce"), ("user/redirect", "redirect"),
+       ("openid4vci/preauthcode", "preauth"), ("s2s/nonce", "s2s"), ("nonceonce", "jti")] := by
+  decide
+
 end Nuts.C05.Props
